@@ -97,6 +97,18 @@ pub struct Ctx {
     pub cfg: Value,
 }
 
+/// The byte-level API takes any reader: every call of this executor delivers its input either at once (a cursor)
+/// or a few bytes per read call (1, 7 or 64), in rotation - the bytes are the same.
+static RD_COUNTER: std::sync::atomic::AtomicUsize = std::sync::atomic::AtomicUsize::new(0);
+pub fn rd(bytes: Vec<u8>) -> Box<dyn std::io::Read> {
+    let k = RD_COUNTER.fetch_add(1, std::sync::atomic::Ordering::Relaxed);
+    match k % 4 {
+        0 | 2 => Box::new(Cursor::new(bytes)),
+        1 => Box::new(crate::misc_exec::Chunked { data: bytes, pos: 0, chunk: 7 }),
+        _ => Box::new(crate::misc_exec::Chunked { data: bytes, pos: 0, chunk: if k % 8 == 3 { 1 } else { 64 } }),
+    }
+}
+
 fn get_root(r: &RLN) -> Option<Fr> {
     let mut o = Vec::new();
     r.get_root(&mut o).ok()?;
@@ -255,12 +267,12 @@ pub fn prove(cx: &mut Ctx, op: &Value, it: &mut Interner) -> Value {
                 req.truncate(n as usize);
             }
             ev["reqlen"] = json!(req.len());
-            catch(AssertUnwindSafe(|| r.generate_rln_proof(Cursor::new(req), &mut out)))
+            catch(AssertUnwindSafe(|| r.generate_rln_proof(rd(req), &mut out)))
         }
-        "witness" => catch(AssertUnwindSafe(|| r.generate_rln_proof_with_witness(Cursor::new(wbytes.clone()), &mut out))),
+        "witness" => catch(AssertUnwindSafe(|| r.generate_rln_proof_with_witness(rd(wbytes.clone()), &mut out))),
         "raw" => catch(AssertUnwindSafe(|| {
             let mut proof = Vec::new();
-            r.prove(Cursor::new(wbytes.clone()), &mut proof)?;
+            r.prove(rd(wbytes.clone()), &mut proof)?;
             let (w, _) = deserialize_witness(&wbytes)?;
             let pv = proof_values_from_witness(&w)?;
             out.extend(proof);
@@ -503,8 +515,8 @@ pub fn verify(cx: &mut Ctx, op: &Value, it: &mut Interner) -> Value {
     let tr = get_root(r);
     ev["treeroot"] = json!(tr.map(|v| fr_le_bytes(&v)).unwrap_or_default());
     match kind {
-        "raw" => verdict(catch(AssertUnwindSafe(|| r.verify(Cursor::new(bytes.clone())))), &mut ev),
-        "stateful" => verdict(catch(AssertUnwindSafe(|| r.verify_rln_proof(Cursor::new(bytes.clone())))), &mut ev),
+        "raw" => verdict(catch(AssertUnwindSafe(|| r.verify(rd(bytes.clone())))), &mut ev),
+        "stateful" => verdict(catch(AssertUnwindSafe(|| r.verify_rln_proof(rd(bytes.clone())))), &mut ev),
         "roots" => {
             let mut roots: Vec<Vec<u8>> = Vec::new();
             for (k, d) in op.get("roots").and_then(|x| x.as_array()).cloned().unwrap_or_default().iter().enumerate() {
@@ -521,7 +533,7 @@ pub fn verify(cx: &mut Ctx, op: &Value, it: &mut Interner) -> Value {
             }
             ev["roots"] = json!(roots);
             ev["roots_extra"] = json!(op.get("roots_extra").and_then(|x| x.as_u64()).unwrap_or(0));
-            verdict(catch(AssertUnwindSafe(|| r.verify_with_roots(Cursor::new(bytes.clone()), Cursor::new(rb.clone())))), &mut ev)
+            verdict(catch(AssertUnwindSafe(|| r.verify_with_roots(rd(bytes.clone()), rd(rb.clone())))), &mut ev)
         }
         k => panic!("unknown verify kind {k}"),
     }
@@ -544,7 +556,7 @@ pub fn recover(cx: &mut Ctx, op: &Value, _it: &mut Interner) -> Value {
     ev["bytes_a"] = json!(ba);
     ev["bytes_b"] = json!(bb);
     let mut out = Vec::new();
-    match catch(AssertUnwindSafe(|| r.recover_id_secret(Cursor::new(ba.clone()), Cursor::new(bb.clone()), &mut out))) {
+    match catch(AssertUnwindSafe(|| r.recover_id_secret(rd(ba.clone()), rd(bb.clone()), &mut out))) {
         Ok(Ok(())) => ev["res"] = json!("ok"),
         Ok(Err(e)) => {
             ev["res"] = json!("err");
@@ -615,18 +627,18 @@ pub fn tree_op(cx: &mut Ctx, op: &Value, it: &mut Interner) -> Value {
     let c = op["c"].as_str().unwrap();
     let res = catch(AssertUnwindSafe(|| -> color_eyre::Result<()> {
         match c {
-            "reg" => r.set_leaf(op["i"].as_u64().unwrap() as usize, Cursor::new(enc_fr(&rc_of(it, &fv(&op["s"]), &fv(&op["lim"]))))),
-            "regnext" => r.set_next_leaf(Cursor::new(enc_fr(&rc_of(it, &fv(&op["s"]), &fv(&op["lim"]))))),
+            "reg" => r.set_leaf(op["i"].as_u64().unwrap() as usize, rd(enc_fr(&rc_of(it, &fv(&op["s"]), &fv(&op["lim"]))))),
+            "regnext" => r.set_next_leaf(rd(enc_fr(&rc_of(it, &fv(&op["s"]), &fv(&op["lim"]))))),
             "regrange" => {
                 let ls: Vec<Fr> = op["ids"].as_array().unwrap().iter().map(|p| rc_of(it, &fv(&p[0]), &fv(&p[1]))).collect();
-                r.set_leaves_from(op["i"].as_u64().unwrap() as usize, Cursor::new(enc_vec_fr(&ls)))
+                r.set_leaves_from(op["i"].as_u64().unwrap() as usize, rd(enc_vec_fr(&ls)))
             }
             "regbatch" => {
                 let ls: Vec<Fr> = op["ids"].as_array().unwrap().iter().map(|p| rc_of(it, &fv(&p[0]), &fv(&p[1]))).collect();
                 let rem: Vec<u8> = op["rem"].as_array().unwrap().iter().map(|x| x.as_u64().unwrap() as u8).collect();
-                r.atomic_operation(op["i"].as_u64().unwrap() as usize, Cursor::new(enc_vec_fr(&ls)), Cursor::new(enc_vec_u8(&rem)))
+                r.atomic_operation(op["i"].as_u64().unwrap() as usize, rd(enc_vec_fr(&ls)), rd(enc_vec_u8(&rem)))
             }
-            "setraw" => r.set_leaf(op["i"].as_u64().unwrap() as usize, Cursor::new(enc_fr(&fv(&op["v"])))),
+            "setraw" => r.set_leaf(op["i"].as_u64().unwrap() as usize, rd(enc_fr(&fv(&op["v"])))),
             "del" => r.delete_leaf(op["i"].as_u64().unwrap() as usize),
             "fill" => {
                 let mut rg = ChaCha20Rng::seed_from_u64(op["seed"].as_u64().unwrap());
